@@ -672,8 +672,27 @@ def oracle_c06(case, obs, res):
         n_unstage = sum(1 for _, op, _ in ops if op in ("unstage", "unstage!raise"))
         if n_stage >= 1:
             outstanding += 1
+            n_ok = sum(1 for _, op, _ in ops if op == "unstage")
             if n_unstage < n_stage:
                 res.fail("left_staged", f"{dev}: staged {n_stage}x but unstaged {n_unstage}x when the engine went idle", **F(device=dev))
+            elif n_ok < n_stage:
+                # an injected fault made an unstage fail: the device may stay staged only if the engine's own
+                # clean-up (an unstage not issued by a plan message) tried after the last plan-issued attempt
+                windows = []
+                for hi, h in enumerate(obs.hook):
+                    if h["msg"].command == "unstage" and getattr(h["msg"].obj, "name", None) == dev:
+                        lo = h["ledger"]
+                        up = obs.hook[hi + 1]["ledger"] if hi + 1 < len(obs.hook) else len(world.ledger)
+                        windows.append((lo, up))
+                attempts = [seq for seq, op, _ in ops if op in ("unstage", "unstage!raise")]
+                engine_attempts = [q for q in attempts if not any(lo <= q < up for lo, up in windows)]
+                plan_attempts = [q for q in attempts if any(lo <= q < up for lo, up in windows)]
+                if not engine_attempts or (plan_attempts and max(engine_attempts) < max(plan_attempts)):
+                    res.fail(
+                        "left_staged_without_engine_attempt",
+                        f"{dev}: staged {n_stage}x, successfully unstaged {n_ok}x; the failing unstage was issued by the plan and the engine's clean-up never tried again",
+                        **F(device=dev),
+                    )
             elif n_unstage > n_stage:
                 res.classes.append("over_unstaged")
         # a set() that raised may still have started a move: it counts as "was set"
